@@ -171,7 +171,15 @@ def to_case(res: Dict[str, Any]) -> Dict[str, Any]:
                                            "dupname", "dupfull")}
     pages = [f for f, raw in zip(site["files"], site["rawfiles"]) if raw.endswith(".html")]
     links = sorted({(l["page"], l["file"], l["frag"], l["prod"], l["member"]) for l in site["links"]})
-    entries = sorted({(e["page"], e["kind"], e["file"], e["frag"], e["private"]) for e in site["entries"]})
+    byid = {o["id"]: o for o in proj["objs"]}
+    ents = []
+    for e in site["entries"]:
+        if e.get("ref"):                     # an item without link: the address of the object whose name it displays
+            if e["ref"] not in byid:
+                continue
+            e = dict(e, file=byid[e["ref"]]["file"], frag=byid[e["ref"]]["frag"])
+        ents.append(e)
+    entries = sorted({(e["page"], e["kind"], e["file"], e["frag"], e["private"]) for e in ents})
     enum = job["kind"] == "enum"
     return {
         "kind": job["kind"], "name": job["name"],
